@@ -251,6 +251,12 @@ class Ctx {
       }
     }
     violationCount++;
+    if (const char* dump = getenv("VERIF_DUMP_FAILS")) {  // experiments only: every failing key, uncapped
+      if (FILE* f = fopen((std::string(dump) + "." + std::to_string(shard)).c_str(), "a")) {
+        fprintf(f, "%s\t%s\n", key.c_str(), clause.c_str());
+        fclose(f);
+      }
+    }
     uint64_t& c = clauseCount[clause];
     c++;
     if (c <= 20 && violations.size() < 200)
